@@ -585,6 +585,12 @@ func (m *Manager) rotateWAL() error {
 		newWAL.UpdateNextSequence(currentWAL.GetNextSequence())
 		// ... and keep whoever observes the log (replication) attached to it
 		currentWAL.CarryObserversTo(newWAL)
+		// Everything the old log accepted goes to its file before the new
+		// one can take a write (its buffer used to be written only by the
+		// Close below, after writers had moved on to the new log).
+		if err := currentWAL.SyncRotating(); err != nil {
+			m.stats.TrackError("wal_sync_error")
+		}
 	}
 
 	// Store the old WAL for proper closure
